@@ -435,6 +435,8 @@ package otp
 //@   requires !qhas(extraParams, "secret") && !qhas(extraParams, "issuer") && !qhas(extraParams, "algorithm") && !qhas(extraParams, "digits")
 //@   loop 1 invariant qval(query, "secret") == param.Secret && qval(query, "issuer") == param.Issuer &&
 //@ |   qval(query, "algorithm") == algname(param.Algorithm) && qval(query, "digits") == dec(param.Digits == 0 ? 6 : param.Digits)
+//@   loop 1 invariant forall k: seq :: rangeseen(k) ==> qval(query, k) == qval(extraParams, k)
+//@   ensures[extra] err == nil ==> forall k: seq :: qhas(extraParams, k) ==> qget(r.RawQuery, k) == qval(extraParams, k)
 //@   ensures[iff] err == nil <==> urlok(param)
 //@   ensures[verdict] (err == nil && r != nil) || (err != nil && r == nil)
 //@   ensures[fields] err == nil ==> urlfields(r, kind, param)
@@ -444,10 +446,12 @@ package otp
 //@   ensures[verdict] (err == nil && r != nil) || (err != nil && r == nil)
 //@   ensures[iff] err == nil <==> urlok(param)
 //@   ensures[fields] err == nil ==> urlfields(r, "hotp", param)
+//@   ensures[counter] err == nil ==> qget(r.RawQuery, "counter") == "0"
 //@ func otp.GenerateTOTPURL(param) (r, err)
 //@   ensures[verdict] (err == nil && r != nil) || (err != nil && r == nil)
 //@   ensures[iff] err == nil <==> urlok(param)
 //@   ensures[fields] err == nil ==> urlfields(r, "totp", param)
+//@   ensures[period] err == nil ==> qget(r.RawQuery, "period") == dec(param.Period == 0 ? 30 : param.Period)
 
 // documented panic on an unknown or invalid suite string (excluded from C10); on return the registered configuration
 //@ func otp.MustRawSuite(raw) (r)
